@@ -183,6 +183,30 @@ def summarise_get_mutators(chk, prog, reg):
         chk.check('C14.R3', 'mutators.get_mutators', 'unknown name', res == [],
                   f'an unregistered name yields {res!r}', loc=m.loc(f),
                   nontrivial=True)
+    # freshness: two calls never hand out the same instance (callers
+    # customise instances with setattr; a shared one would carry the
+    # restriction of one pass into every other pass)
+    nshared = 0
+    for cname in table:
+        for dec, res, fo in base.paths(
+                lambda fo: (fo.call_function(fref, [[cname]], {}),
+                            fo.call_function(fref, [[cname]], {}))):
+            if not (isinstance(res[0], list) and isinstance(res[1], list)):
+                continue
+            if any(x is y for x in res[0] for y in res[1]
+                   if isinstance(x, Inst)):
+                nshared += 1
+                chk.violation(
+                    'C14.R3', 'mutators.get_mutators',
+                    f'instance of {cname} shared between calls',
+                    f'two calls get_mutators([{cname!r}]) return the same '
+                    'instance: attributes set by get_initialized_mutator '
+                    'for one pass (e.g. ident) leak into every other pass, '
+                    'the last pass no longer holds an unrestricted instance',
+                    loc=m.loc(f))
+    chk.check('C14.R3', 'mutators.get_mutators', 'fresh instance per call',
+              nshared == 0, f'{nshared} classes share their instance',
+              loc=m.loc(f), nontrivial=True)
     # order/independence: a two-element list is the concatenation
     names = list(table)[:2]
     if len(names) == 2:
@@ -1024,14 +1048,14 @@ def run(tier):
             'option, in order, with the option string used',
         ])
     reg = options_table.registry(prog)
-    rule_r1(chk, prog, reg)
+    chk.guard(rule_r1, chk, prog, reg)
     table = summarise_get_mutators(chk, prog, reg)
-    rule_r2(chk, prog, reg)
-    rule_r4(chk, prog, reg, table)
-    rule_r5(chk, prog, reg, table)
-    rule_r6(chk, prog, reg)
-    rule_r7(chk, prog, reg)
-    rule_r8(chk, prog, reg)
+    chk.guard(rule_r2, chk, prog, reg)
+    chk.guard(rule_r4, chk, prog, reg, table)
+    chk.guard(rule_r5, chk, prog, reg, table)
+    chk.guard(rule_r6, chk, prog, reg)
+    chk.guard(rule_r7, chk, prog, reg)
+    chk.guard(rule_r8, chk, prog, reg)
     extra = None
     if tier == 'thorough':
         from .. import selftest
